@@ -6,7 +6,7 @@ import scen
 KF_WHAT = {"KF-C19-1": "a re-pushed id comes out at the position of its older, stale ticket"}
 
 
-def rand_queue_calls(rng, n, nids):
+def rand_queue_calls(rng, n, nids, ties=False):
     calls = []
     ts = 0
     for _ in range(n):
@@ -14,7 +14,7 @@ def rand_queue_calls(rng, n, nids):
         i = rng.range(1, nids)
         if x < 35:
             ts += 1
-            calls.append({"op": "push", "o": scen.rand_order(rng, i, rng.range(1, 5) if rng.chance(1, 3) else ts)})
+            calls.append({"op": "push", "o": scen.rand_order(rng, i, rng.range(1, 2) if ties else (rng.range(1, 5) if rng.chance(1, 3) else ts))})
         elif x < 55:
             calls.append({"op": "pop"})
         elif x < 67:
@@ -83,6 +83,10 @@ def check_c19(prop, tier):
             # timestamps in microseconds / at the 64-bit limit (the listing sorts by them), ids in the ULID format
             hs2[k]["tsoff"] = str([1800000000000000, (1 << 64) - 100000][(k // 3) % 2])
             hs2[k]["ulid"] = (k // 3) % 4 >= 2
+        for k in range(1, n, 3):
+            # ids 4, 5, 6 = the bytes of ids 1, 2, 3 in the other id format; many equal timestamps
+            hs2[k] = qscen([rand_queue_calls(rng, rng.range(8, 30), 6, ties=True)], {"mode": "fixed", "seq": []})
+            hs2[k]["twins"] = True
         nb = 0
         for via in ("from_vec", "from", "text", "json"):
             for _ in range(25 if tier == "quick" else 400):
@@ -96,6 +100,8 @@ def check_c19(prop, tier):
                 if nb % 3 == 1:
                     b["tsoff"] = str([1800000000000000, (1 << 64) - 100000][(nb // 3) % 2])
                     b["ulid"] = (nb // 3) % 4 >= 2
+                elif nb % 3 == 2:
+                    b["twins"] = True
                 hs2.append(b)
                 nb += 1
         h2 = run_harness("queue", hs2, work, "tv")
